@@ -32,6 +32,14 @@
 (* Switch k.revokeValidates: FALSE = the code (a revocation applies the     *)
 (*   validated holder commitment to the ledger without re-validation);      *)
 (*   TRUE = the proposed repair (re-validate, refuse to revoke).            *)
+(* Policy k.vlim: the node-wide payment velocity limit (SimplePolicy        *)
+(*   global_velocity_control, hourly window) in units; 0 = unlimited (the   *)
+(*   default policy).  With a finite limit add_invoice / add_keysend DECLINE *)
+(*   (reply Ok(false)) an approval whose amount does not fit into what is    *)
+(*   left of the window: nothing is registered for the hash - no invoice,    *)
+(*   no payment entry - so for the ledger the hash stays unknown and an      *)
+(*   unbacked outgoing HTLC for it must be refused like for any other        *)
+(*   unknown hash (C06, second sentence).                                    *)
 (***************************************************************************)
 EXTENDS Naturals, Integers, Sequences, FiniteSets, TLC
 
@@ -71,6 +79,13 @@ Tot(f) == SumOver(f, DOMAIN f)
 (*   piss[h] = the issued invoice in the PERSISTED node entry                 *)
 (*   ch[c]   = [curH, nextH, curC]  accepted commitment contents            *)
 (*   time    = 0, or 1 after the clock was advanced past every prune time   *)
+(*   vel     = what the approvals registered in the current velocity window  *)
+(*             add up to (NodeState.velocity_control, in memory), as it       *)
+(*             counts at the current clock (the buckets are rotated lazily,   *)
+(*             at the next insert; a Tick moves every bucket out of the       *)
+(*             window).  Tracked only under a finite limit (k.vlim > 0): an   *)
+(*             unlimited control accepts everything and is left out (0).      *)
+(*   pvel    = the same in the PERSISTED node entry (what a restart restores) *)
 (***************************************************************************)
 NoInv == [amt |-> -1, ks |-> FALSE, old |-> FALSE]
 NoIss == [amt |-> 0, old |-> FALSE]
@@ -83,7 +98,7 @@ InitState(Cs, Hs) ==
   [ inv |-> [h \in Hs |-> NoInv], pay |-> [h \in Hs |-> NoPay(Cs)], ppre |-> [h \in Hs |-> FALSE],
     iss |-> [h \in Hs |-> NoIss], piss |-> [h \in Hs |-> NoIss],
     ch |-> [c \in Cs |-> [curH |-> Cont(<<>>), nextH |-> NoneC, curC |-> Cont(<<>>)]],
-    time |-> 0 ]
+    time |-> 0, vel |-> 0, pvel |-> 0 ]
 
 Err(s)       == [resp |-> [ok |-> FALSE, flag |-> -1], s |-> s]
 Ok(s)        == [resp |-> [ok |-> TRUE, flag |-> -1], s |-> s]
@@ -182,17 +197,33 @@ Revoke(s, c, k) ==
   ELSE Ok([s EXCEPT !.ch[c].curH = cs.nextH, !.ch[c].nextH = NoneC,
                     !.pay = Apply(s.pay, c, inS, outS)])
 
-\* what update_node writes: the preimages and the issued invoices currently in memory
-Persist(s) == [s EXCEPT !.ppre = [h \in Hs(s) |-> s.pay[h].pre], !.piss = s.iss]
+\* what update_node writes: the preimages, the issued invoices and the velocity control currently in memory
+Persist(s) == [s EXCEPT !.ppre = [h \in Hs(s) |-> s.pay[h].pre], !.piss = s.iss, !.pvel = s.vel]
+
+\* VelocityControl::insert(now, amount) on NodeState.velocity_control: the amount is added to the
+\* window unless the total would exceed the limit (then nothing is inserted and the caller declines)
+VelFits(s, a, k) == k.vlim = 0 \/ s.vel + a <= k.vlim
+VelAdd(s, a, k)  == IF k.vlim = 0 THEN 0 ELSE s.vel + a
 
 \* add_invoice: an identical invoice is accepted again without change; a different one for the
 \* same hash is refused.  The harness stamps invoices relative to the clock, so the invoice
 \* registered before the clock was advanced is a different one afterwards.
-AddInvoice(s, h, a) ==
+\* A new invoice is then put to the node-wide velocity control: when its amount does not fit into
+\* the window the answer is Ok(false) and NOTHING is registered - no invoice, no payment entry,
+\* nothing persisted (the hash stays unknown to validate_payments: an uninvoiced hash without
+\* payment entry must balance).  Only an approved invoice gets its payment entry.
+AddInvoice(s, h, a, k) ==
   LET e == s.inv[h] IN
   IF e.amt >= 0 THEN (IF ~e.ks /\ e.amt = a /\ ~e.old THEN OkFlag(s, TRUE) ELSE Err(s))
+  ELSE IF ~VelFits(s, a, k) THEN OkFlag(s, FALSE)           \* policy-commitment-payment-velocity (warning, declined)
   ELSE OkFlag(Persist([s EXCEPT !.inv[h] = [amt |-> a, ks |-> FALSE, old |-> FALSE],
-                                !.pay[h] = IF @.has THEN @ ELSE Fresh(Cs(s))]), TRUE)
+                                !.pay[h] = IF @.has THEN @ ELSE Fresh(Cs(s)),
+                                !.vel = VelAdd(s, a, k)]), TRUE)
+\* an invoice that is past its expiry when it is proposed: the approver's has_payment shortcut refuses
+\* it as a different invoice when the hash has an approval (it cannot be the registered one: that one
+\* was not expired when it was registered and carries another timestamp), add_invoice's
+\* validate_invoice refuses it otherwise (policy-invoice-not-expired), before anything is touched
+ExpiredInvoice(s, h, a) == Err(s)
 \* an invoice the approver declines (Approve::handle_proposed_invoice): the shortcut for an already
 \* registered identical invoice still answers true; nothing is registered otherwise
 DeclineInvoice(s, h, a) ==
@@ -207,21 +238,26 @@ IssueInvoice(s, h, a) ==
   IF e.amt > 0 THEN (IF e.amt = a /\ ~e.old THEN Ok(s) ELSE Err(s))
   ELSE Ok([s EXCEPT !.iss[h] = [amt |-> a, old |-> FALSE]])
 \* add_keysend: the "invoice hash" of a keysend is the payment hash itself, so any keysend for a
-\* hash that has one is the same one (the registered amount stays)
-AddKeysend(s, h, a) ==
+\* hash that has one is the same one (the registered amount stays); a new one is put to the velocity
+\* control like an invoice (declined: Ok(false), nothing registered)
+AddKeysend(s, h, a, k) ==
   LET e == s.inv[h] IN
   IF e.amt >= 0 THEN (IF e.ks THEN OkFlag(s, TRUE) ELSE Err(s))
+  ELSE IF ~VelFits(s, a, k) THEN OkFlag(s, FALSE)
   ELSE OkFlag(Persist([s EXCEPT !.inv[h] = [amt |-> a, ks |-> TRUE, old |-> FALSE],
-                                !.pay[h] = IF @.has THEN @ ELSE Fresh(Cs(s))]), TRUE)
+                                !.pay[h] = IF @.has THEN @ ELSE Fresh(Cs(s)),
+                                !.vel = VelAdd(s, a, k)]), TRUE)
 
 \* Channel::htlcs_fulfilled -> NodeState::htlc_fulfilled (not persisted)
 Fulfill(s, h) ==
   IF s.pay[h].has /\ ~s.pay[h].pre THEN Ok([s EXCEPT !.pay[h].pre = TRUE]) ELSE Ok(s)
 
-\* the harness sets the clock to a fixed instant past every prune time
+\* the harness sets the clock to a fixed instant past every prune time (and past the velocity window:
+\* what was inserted before no longer counts, in memory and after a restart alike)
 Tick(s) ==
   LET age(f, none) == [h \in Hs(s) |-> IF s.time = 0 /\ f[h].amt # none THEN [f[h] EXCEPT !.old = TRUE] ELSE f[h]] IN
-  Ok([s EXCEPT !.time = 1, !.inv = age(s.inv, -1), !.iss = age(s.iss, 0), !.piss = age(s.piss, 0)])
+  Ok([s EXCEPT !.time = 1, !.inv = age(s.inv, -1), !.iss = age(s.iss, 0), !.piss = age(s.piss, 0),
+               !.vel = IF s.time = 0 THEN 0 ELSE @, !.pvel = IF s.time = 0 THEN 0 ELSE @])
 
 \* get_heartbeat: prune_invoices, prune_issued_invoices (by time only), prune_forwarded_payments
 \* (an entry is kept while an issued invoice for its hash exists), persist when something was pruned
@@ -238,7 +274,7 @@ Heartbeat(s) ==
       s2 == [s EXCEPT !.inv = inv1, !.iss = iss1, !.pay = pay2] IN
   IF P1 \cup PI \cup P2 = {} THEN Ok(s) ELSE Ok(Persist(s2))
 
-\* restart: the node entry gives invoices, issued invoices (as last persisted) and preimages; every invoice gets a NEW payment
+\* restart: the node entry gives invoices, issued invoices, the velocity control (as last persisted) and preimages; every invoice gets a NEW payment
 \* entry (the restored preimage of an invoiced hash is dropped); every channel then rebuilds
 \* its part from its CURRENT commitments (restore_payments; a pending next holder commitment
 \* is not counted)
@@ -252,7 +288,7 @@ Restart(s) ==
   LET pay0 == [h \in Hs(s) |-> IF s.inv[h].amt >= 0 THEN Fresh(Cs(s))
                                ELSE IF s.ppre[h] THEN [Fresh(Cs(s)) EXCEPT !.pre = TRUE]
                                ELSE NoPay(Cs(s))] IN
-  Ok([s EXCEPT !.pay = RestoreChans(pay0, s, Cs(s)), !.iss = s.piss])
+  Ok([s EXCEPT !.pay = RestoreChans(pay0, s, Cs(s)), !.iss = s.piss, !.vel = s.pvel])
 
 Step(s, r, k) ==
   CASE r.op = "SignCp"              -> SignCp(s, r.ch, r.c, k)
@@ -260,9 +296,10 @@ Step(s, r, k) ==
     [] r.op = "ValidateHolder"      -> ValidateHolder(s, r.ch, r.c, k)
     [] r.op = "ValidateHolderRetry" -> ValidateHolderRetry(s, r.ch, k)
     [] r.op = "Revoke"              -> Revoke(s, r.ch, k)
-    [] r.op = "AddInvoice"          -> AddInvoice(s, r.h, r.a)
+    [] r.op = "AddInvoice"          -> AddInvoice(s, r.h, r.a, k)
     [] r.op = "DeclineInvoice"      -> DeclineInvoice(s, r.h, r.a)
-    [] r.op = "AddKeysend"          -> AddKeysend(s, r.h, r.a)
+    [] r.op = "ExpiredInvoice"      -> ExpiredInvoice(s, r.h, r.a)
+    [] r.op = "AddKeysend"          -> AddKeysend(s, r.h, r.a, k)
     [] r.op = "IssueInvoice"        -> IssueInvoice(s, r.h, r.a)
     [] r.op = "Fulfill"             -> Fulfill(s, r.h)
     [] r.op = "Tick"                -> Tick(s)
@@ -277,6 +314,10 @@ Step(s, r, k) ==
 (* accepted registration request, for as long as the signer reports the     *)
 (* approval as registered; -1 = none, 0 = an amountless invoice / a keysend *)
 (* of 0, which approves nothing), the hashes seen in accepted updates.      *)
+(* An approval request that the signer DECLINES (answer Ok(false): the      *)
+(* approver said no, or the payment velocity limit would be exceeded) or    *)
+(* refuses (a different invoice for the hash, an expired invoice) approves  *)
+(* nothing: appr[h] stays -1 and clause (b) keeps applying to the hash.     *)
 (*   taint[h]: the approval was registered while the hash was already out   *)
 (*   of balance as an uninvoiced payment (TODO(331) tolerance, which the    *)
 (*   property excludes): clause (a) is not evaluated for it.                *)
@@ -349,7 +390,8 @@ Overpaid(g, k) == {h \in DOMAIN g.appr : g.appr[h] >= 0 /\ ~g.taint[h]
 (***************************************************************************)
 (* Request alphabets / case matrices (the single source of what the        *)
 (* harness explores).  A configuration names the channels, the hashes, the  *)
-(* contents each channel may be offered and the node-level requests.        *)
+(* contents each channel may be offered, the node-level requests and the    *)
+(* policy's payment velocity limit (vlim, in units; absent = unlimited).    *)
 (***************************************************************************)
 O(h, a) == [d |-> "o", h |-> h, a |-> a]
 R(h, a) == [d |-> "r", h |-> h, a |-> a]
@@ -360,7 +402,7 @@ ChanReqs(c, contents, retries) ==
   \cup {[op |-> "Revoke", ch |-> c]}
   \cup (IF retries THEN {[op |-> "SignCpRetry", ch |-> c], [op |-> "ValidateHolderRetry", ch |-> c]} ELSE {})
 
-Config(name) ==
+Config0(name) ==
   CASE name = "pay" ->        \* paying an invoice over two channels, overpayment attempts
          [chans |-> {"c1", "c2"}, hashes |-> {"h1"},
           reqs |-> ChanReqs("c1", {<<>>, <<O("h1", 1)>>, <<O("h1", 2)>>, <<O("h1", 1), O("h1", 1)>>}, FALSE)
@@ -400,7 +442,25 @@ Config(name) ==
               \cup ChanReqs("c2", {<<>>, <<O("h1", 1)>>}, FALSE)
               \cup ChanReqs("c3", {<<>>, <<R("h1", 1)>>}, FALSE)
               \cup {[op |-> "AddInvoice", h |-> "h1", a |-> 1], [op |-> "Restart"]}]
+    [] name \in {"vel", "velx"} ->   \* a finite payment velocity limit of ONE unit per window: the second approval
+                                      \* (and, "velx", an approval larger than the limit) is DECLINED by the node
+                                      \* (Ok(false), nothing registered); outgoing HTLCs for the declined hash with
+                                      \* and without the approval; the sibling refusals of an approval (a different
+                                      \* invoice / a keysend for an approved hash, an expired invoice); the orphan
+                                      \* pruning of a heartbeat and a restart in between; "velx": the window passing
+                                      \* (Tick: the declined approval is then granted), preimages, a third channel
+                                      \* content
+         [chans |-> {"c1", "c2"}, hashes |-> {"h1", "h2"}, vlim |-> 1,
+          reqs |-> ChanReqs("c1", {<<>>, <<O("h1", 1)>>, <<O("h2", 1)>>}, FALSE)
+              \cup ChanReqs("c2", {<<>>, <<O("h2", 1)>>} \cup (IF name = "velx" THEN {<<O("h1", 1), O("h2", 1)>>} ELSE {}), FALSE)
+              \cup {[op |-> "AddInvoice", h |-> "h1", a |-> 1], [op |-> "AddInvoice", h |-> "h2", a |-> 1],
+                    [op |-> "AddKeysend", h |-> "h2", a |-> 1], [op |-> "ExpiredInvoice", h |-> "h2", a |-> 1],
+                    [op |-> "Heartbeat"], [op |-> "Restart"]}
+              \cup (IF name = "velx" THEN {[op |-> "AddInvoice", h |-> "h1", a |-> 2], [op |-> "AddKeysend", h |-> "h1", a |-> 0],
+                                           [op |-> "Fulfill", h |-> "h2"], [op |-> "Tick"]} ELSE {})]
     [] OTHER -> [chans |-> {}, hashes |-> {}, reqs |-> {}]
+Config(name) == LET c == Config0(name) IN
+  [chans |-> c.chans, hashes |-> c.hashes, reqs |-> c.reqs, vlim |-> IF "vlim" \in DOMAIN c THEN c.vlim ELSE 0]
 
 \* the large alphabet of the simulation leg: every content of at most `parts` HTLCs
 HTLCs(HashSet, maxAmt) == {[d |-> d, h |-> h, a |-> a] : d \in {"o", "r"}, h \in HashSet, a \in 1..maxAmt}
